@@ -32,7 +32,7 @@ func zzH_C11_api() {
 		inner = &zzHandler{status: zzInt(), setVary: zzBool(), setACAO: zzBool()}
 	}
 	if presetVary {
-		preset[zzVary] = []string{"X-Pre"}
+		preset[zzVary] = []string{zzPreVary}
 	}
 	preset["X-Pre"] = []string{"1", "2"}
 	w := zzNewWriter()
@@ -74,7 +74,7 @@ func zzH_C11_api() {
 	zzAssert(zzEqStrs(w.h["X-Pre"], []string{"1", "2"}), "pre-set header altered")
 	vary := w.h[zzVary]
 	if presetVary {
-		zzAssert(len(vary) >= 1 && vary[0] == "X-Pre", "pre-existing Vary value lost")
+		zzAssert(len(vary) >= 1 && vary[0] == zzPreVary, "pre-existing Vary value lost")
 	}
 	if !preflight && inner.setVary {
 		zzAssert(len(vary) >= 1 && vary[len(vary)-1] == "X-Inner", "handler's Vary value lost")
